@@ -94,6 +94,16 @@ def flags(repo):
         out["criSkipsComments"] = True
     else:
         raise ValueError("CheckRemainingInput: unknown separator skipping after in.clear()")
+    # the recovery loop: runs to the next delimiter, or also ends at a `;` outside a string literal (the end of the record)
+    stop_shape = (r"bool\s+inString\s*=\s*false\s*,\s*endOfRecord\s*=\s*false\s*;\s*for\(\s*in\.get\(\s*c\s*\)\s*;\s*in\s*&&\s*!IsDelimiter\(\s*delimiterList\s*,\s*c\s*\)\s*;\s*in\.get\(\s*c\s*\)\s*\)\s*\{\s*"
+                  r"if\(\s*c\s*==\s*'\\''\s*\)\s*\{\s*inString\s*=\s*!inString\s*;\s*\}\s*else\s+if\(\s*c\s*==\s*';'\s*&&\s*!inString\s*\)\s*\{\s*in\.putback\(\s*c\s*\)\s*;\s*"
+                  r"endOfRecord\s*=\s*true\s*;\s*break\s*;\s*\}\s*skipBuf\s*\+=\s*c\s*;\s*\}\s*if\(\s*!endOfRecord\s*&&\s*IsDelimiter\(\s*delimiterList\s*,\s*c\s*\)\s*\)")
+    if re.search(stop_shape, cr):
+        out["criStopsAtSemicolon"] = True
+    elif "endOfRecord" not in cr and "inString" not in cr:
+        out["criStopsAtSemicolon"] = False
+    else:
+        raise ValueError("CheckRemainingInput: unknown shape of the recovery loop")
     # the delimiter test: bare strchr (matches the list's terminating NUL) or the guarded helper
     n_strchr, n_isd = len(re.findall(r"\bstrchr\(\s*delimiterList\s*,\s*c\s*\)", cr)), len(re.findall(r"\bIsDelimiter\(\s*delimiterList\s*,\s*c\s*\)", cr))
     if (n_strchr, n_isd) == (3, 0):
@@ -181,14 +191,68 @@ def flags(repo):
         out["recoveryKeepsSemicolon"] = True
     else:
         raise ValueError(f"recovery scan: unknown code at `;`: {t[:80]!r}")
-    # the loops themselves: `recoverScan` of the model transliterates exactly these two nested loops (character-wise, not
-    # string-aware, one look-ahead after `)` that is examined again by the outer loop); any other scan is not the model's
-    if not re.search(r"while\(\s*in\.good\(\)\s*&&\s*!foundEnd\s*\)\s*\{\s*while\(\s*in\.good\(\)\s*&&\s*\(\s*c\s*!=\s*'\)'\s*\)\s*\)\s*\{\s*"
-                     r"in\.get\(\s*c\s*\)\s*;\s*tmp\s*\+=\s*c\s*;\s*\}\s*if\(\s*in\.good\(\)\s*&&\s*\(\s*c\s*==\s*'\)'\s*\)\s*\)\s*\{\s*"
-                     r"in\s*>>\s*ws\s*;\s*in\.get\(\s*c\s*\)\s*;\s*tmp\s*\+=\s*c\s*;\s*if\(\s*c\s*==\s*';'\s*\)\s*\{[^{}]*\}\s*\}\s*\}\s*"
-                     r"_error\.AppendToDetailMsg\(\s*tmp\.c_str\(\)\s*\)", rb):
+    # the loops themselves: `recoverScan` of the model transliterates exactly these two nested loops (character-wise, one
+    # look-ahead after `)` that is examined again by the outer loop), in one of two shapes: not string-aware and running on
+    # until `);` - or ending at a `;` outside a string literal (`inString` toggled by apostrophes); any other scan is not
+    # the model's
+    old_scan = (r"while\(\s*in\.good\(\)\s*&&\s*!foundEnd\s*\)\s*\{\s*while\(\s*in\.good\(\)\s*&&\s*\(\s*c\s*!=\s*'\)'\s*\)\s*\)\s*\{\s*"
+                r"in\.get\(\s*c\s*\)\s*;\s*tmp\s*\+=\s*c\s*;\s*\}\s*if\(\s*in\.good\(\)\s*&&\s*\(\s*c\s*==\s*'\)'\s*\)\s*\)\s*\{\s*"
+                r"in\s*>>\s*ws\s*;\s*in\.get\(\s*c\s*\)\s*;\s*tmp\s*\+=\s*c\s*;\s*if\(\s*c\s*==\s*';'\s*\)\s*\{[^{}]*\}\s*\}\s*\}\s*"
+                r"_error\.AppendToDetailMsg\(\s*tmp\.c_str\(\)\s*\)")
+    new_scan = (r"bool\s+inString\s*=\s*false\s*;\s*"
+                r"while\(\s*in\.good\(\)\s*&&\s*!foundEnd\s*\)\s*\{\s*while\(\s*in\.good\(\)\s*&&\s*\(\s*c\s*!=\s*'\)'\s*\)\s*&&\s*!foundEnd\s*\)\s*\{\s*"
+                r"in\.get\(\s*c\s*\)\s*;\s*tmp\s*\+=\s*c\s*;\s*if\(\s*in\.good\(\)\s*\)\s*\{\s*if\(\s*c\s*==\s*'\\''\s*\)\s*\{\s*inString\s*=\s*!inString\s*;\s*\}\s*"
+                r"else\s+if\(\s*c\s*==\s*';'\s*&&\s*!inString\s*\)\s*\{\s*in\.putback\(\s*c\s*\)\s*;\s*foundEnd\s*=\s*1\s*;\s*\}\s*\}\s*\}\s*"
+                r"if\(\s*!foundEnd\s*&&\s*in\.good\(\)\s*&&\s*\(\s*c\s*==\s*'\)'\s*\)\s*\)\s*\{\s*"
+                r"in\s*>>\s*ws\s*;\s*in\.get\(\s*c\s*\)\s*;\s*tmp\s*\+=\s*c\s*;\s*if\(\s*c\s*==\s*';'\s*\)\s*\{[^{}]*\}\s*"
+                r"else\s+if\(\s*in\.good\(\)\s*&&\s*c\s*==\s*'\\''\s*\)\s*\{\s*inString\s*=\s*!inString\s*;\s*\}\s*\}\s*\}\s*"
+                r"_error\.AppendToDetailMsg\(\s*tmp\.c_str\(\)\s*\)")
+    if re.search(old_scan, rb) and "inString" not in rb:
+        out["recoveryStopsAtSemicolon"] = False
+    elif re.search(new_scan, rb) and len(re.findall(r"\binString\b", rb)) == 6 and out["recoveryKeepsSemicolon"]:
+        out["recoveryStopsAtSemicolon"] = True
+    else:
         raise ValueError("SDAI_Application_instance::STEPread: the recovery scan after 'No more attributes were expected' is no longer "
-                         "the two nested character loops the model's recoverScan transliterates")
+                         "one of the two shapes of nested character loops the model's recoverScan transliterates")
+    # ---- the raw-text scanners (elements of aggregates of aggregates; parameter lists SkipSimpleRecord steps over): the
+    # iterative PushPastImbedAggr and the switch of SCLundefined::STEPread, each with or without the `;` that ends the value
+    # at the end of the record (fixes/C05-16 and -17 go together)
+    ppa = _strip(_body(rf0, r"void\s+PushPastImbedAggr\(\s*istream\s*&\s*in", "PushPastImbedAggr"))
+    ppa_shape = (r"in\s*>>\s*ws\s*;\s*in\.get\(\s*c\s*\)\s*;\s*if\(\s*c\s*==\s*'\('\s*\)\s*\{\s*unsigned\s+long\s+depth\s*=\s*1\s*;\s*s\s*\+=\s*c\s*;\s*in\.get\(\s*c\s*\)\s*;\s*"
+                 r"while\(\s*in\.good\(\)\s*\)\s*\{\s*if\(\s*c\s*==\s*'\('\s*\)\s*\{\s*s\s*\+=\s*c\s*;\s*\+\+depth\s*;\s*\}\s*"
+                 r"else\s+if\(\s*c\s*==\s*STRING_DELIM\s*\)\s*\{\s*in\.putback\(\s*c\s*\)\s*;\s*PushPastString\(\s*in\s*,\s*s\s*,\s*err\s*\)\s*;\s*\}\s*"
+                 r"else\s+if\(\s*c\s*==\s*'\)'\s*\)\s*\{\s*s\s*\+=\s*c\s*;\s*if\(\s*--depth\s*==\s*0\s*\)\s*\{\s*break\s*;\s*\}\s*\}\s*"
+                 r"(else\s+if\(\s*c\s*==\s*';'\s*\)\s*\{\s*in\.putback\(\s*c\s*\)\s*;\s*break\s*;\s*\}\s*)?"
+                 r"else\s*\{\s*s\s*\+=\s*c\s*;\s*\}\s*in\.get\(\s*c\s*\)\s*;\s*\}")
+    mp = re.search(ppa_shape, ppa)
+    if not mp:
+        raise ValueError("PushPastImbedAggr: no longer the depth-counting loop the model's pushPastAggr stands for")
+    su = _strip(_body(rd("src/clstepcore/STEPundefined.cc"), r"Severity\s+SCLundefined::STEPread\(\s*istream\s*&\s*in", "SCLundefined::STEPread"))
+    cases = re.findall(r"case\s+('(?:\\.|[^'])'|EOF)\s*:", su)
+    semi = re.search(r"case\s+';'\s*:\s*in\.putback\(\s*c\s*\)\s*;\s*terminal\s*=\s*1\s*;\s*break\s*;", su)
+    if cases not in (["'('", "'\\''", "','", "')'", "'\\0'", "EOF"], ["'('", "'\\''", "','", "')'", "';'", "'\\0'", "EOF"]) or (("';'" in cases) != bool(semi)):
+        raise ValueError(f"SCLundefined::STEPread: the switch changed: {cases}")
+    if bool(mp.group(1)) != bool(semi):
+        raise ValueError("PushPastImbedAggr and SCLundefined::STEPread disagree about ending a value at `;`")
+    out["rawValueStaysInRecord"] = bool(semi)
+    # SkipSimpleRecord: the loop `skipRecLoop` of the model transliterates (own character loop; the shared descriptor ends it)
+    ssr = _strip(_body(rf0, r"const\s+char\s*\*\s*SkipSimpleRecord\(\s*istream\s*&\s*in", "SkipSimpleRecord"))
+    if not re.search(r"in\s*>>\s*ws\s*;\s*in\.get\(\s*c\s*\)\s*;\s*if\(\s*c\s*==\s*'\('\s*\)\s*\{\s*buf\s*\+=\s*c\s*;\s*"
+                     r"while\(\s*in\.get\(\s*c\s*\)\s*&&\s*\(\s*c\s*!=\s*'\)'\s*\)\s*&&\s*\(\s*err->severity\(\)\s*>\s*SEVERITY_INPUT_ERROR\s*\)\s*\)\s*\{\s*"
+                     r"if\(\s*c\s*==\s*'\\''\s*\)\s*\{\s*in\.putback\(\s*c\s*\)\s*;\s*s\.clear\(\)\s*;\s*PushPastString\(\s*in\s*,\s*s\s*,\s*err\s*\)\s*;[^{}]*\}\s*"
+                     r"else\s+if\(\s*c\s*==\s*'\('\s*\)\s*\{\s*in\.putback\(\s*c\s*\)\s*;\s*s\.clear\(\)\s*;\s*PushPastImbedAggr\(\s*in\s*,\s*s\s*,\s*err\s*\)\s*;[^{}]*\}\s*"
+                     r"else\s*\{\s*buf\s*\+=\s*c\s*;\s*\}\s*\}\s*if\(\s*!in\.good\(\)\s*\)\s*\{\s*err->GreaterSeverity\(\s*SEVERITY_INPUT_ERROR\s*\)\s*;", ssr):
+        raise ValueError("SkipSimpleRecord: no longer the loop the model's skipRecLoop transliterates")
+    # the look-ahead for missing trailing values after an early `)`: one `i++` per round (every remaining attribute) or two
+    lm = re.search(r"else\s+if\(\s*c\s*==\s*'\)'\s*\)\s*\{\s*while\(\s*i\s*<\s*n\s*-\s*1\s*\)\s*\{(.*?)\}\s*return\s+_error\.severity\(\)\s*;\s*\}", rb, re.S)
+    if not lm:
+        raise ValueError("SDAI_Application_instance::STEPread: look-ahead for missing trailing values not found")
+    la = lm.group(1)
+    one = re.fullmatch(r"\s*i\+\+\s*;\s*if\(\s*!\(\s*attributes\[i\]\.aDesc->AttrType\(\)\s*==\s*AttrType_Redefining\s*\)\s*\)\s*\{[^{}]*"
+                       r"_error\.GreaterSeverity\(\s*SEVERITY_WARNING\s*\)\s*;\s*return\s+_error\.severity\(\)\s*;\s*\}\s*(i\+\+\s*;\s*)?", la, re.S)
+    if not one:
+        raise ValueError("SDAI_Application_instance::STEPread: the look-ahead loop has an unknown shape")
+    out["missingCheckEverySecond"] = one.group(1) is not None
     # constants of the instance reader the model transliterates
     for pat, what in [(r"if\(\s*severe\s*<=\s*SEVERITY_USERMSG\s*\)", "attribute merge threshold"),
                       (r"CheckRemainingInput\(\s*in,\s*&_error,\s*\"ENTITY\",\s*\",\)\"\s*\)", "delimiter resynchronisation"),
@@ -305,6 +369,17 @@ def flags(repo):
         out["realFailUnlessBlank"] = False
     else:
         raise ValueError("ReadReal: unknown use of `blank`")
+    # the in-band null sentinels: a successfully extracted value that IS the sentinel is reported, not stored (fixes/C09-9)
+    for key, body_, var, fail, sent in (("intNullReported", ri, "i", "in", "S_INT_NULL"), ("realNullReported", rr_, "d", "in2", "S_REAL_NULL"),
+                                        ("numberNullReported", rn, "d", "in", "S_NUMBER_NULL")):
+        shape = (r"if\(\s*!" + fail + r"\.fail\(\)\s*&&\s*" + var + r"\s*==\s*" + sent + r"\s*\)\s*\{[^{}]*err->GreaterSeverity\(\s*SEVERITY_WARNING\s*\)\s*;"
+                 r"[^{}]*\}\s*else\s+if\(\s*!" + fail + r"\.fail\(\)\s*\)\s*\{\s*valAssigned\s*=\s*1\s*;")
+        if re.search(shape, body_):
+            out[key] = True
+        elif not re.search(var + r"\s*==\s*" + sent, body_):
+            out[key] = False
+        else:
+            raise ValueError(f"{key}: unknown use of {sent}")
     # ReadEntityRef: something that is neither a reference nor a delimiter is reported by the reader itself
     rer = _strip(_body(ai, r"SDAI_Application_instance\s*\*\s*ReadEntityRef\(\s*istream\s*&\s*in", "ReadEntityRef"))
     if re.search(r"bool\s+gotChar\s*=\s*!in\.fail\(\)\s*;\s*in\.putback\(\s*c\s*\)\s*;\s*if\(\s*gotChar\s*&&[^{}]*\)\s*\{[^{}]*err->GreaterSeverity\(\s*SEVERITY_WARNING\s*\)", rer):
@@ -343,8 +418,29 @@ def flags(repo):
     return out
 
 
+def _cx_shape_of_attrnull(repo):
+    """C15's derivation of the complex-part plumbing (tools/extract.d/attrnull.py: merge mode; stepfile.py: ReadInstance
+    reports a complex instance's error) - the two facts `AttrNull.codeShape` is built from"""
+    import importlib.util
+    txt = ""
+    for nm in ("attrnull", "stepfile"):
+        spec = importlib.util.spec_from_file_location("extract_" + nm + "_for_p21rw", os.path.join(os.path.dirname(__file__), nm + ".py"))
+        m = importlib.util.module_from_spec(spec)
+        spec.loader.exec_module(m)
+        txt += "\n".join(m.extract(repo).values()) + "\n"
+    mm = re.search(r'def complexMerge : String := "(\w+)"', txt)
+    rr = re.search(r"def readInstComplexReportsError : Bool := (true|false)", txt)
+    if not mm or not rr:
+        raise ValueError("attrnull.py / stepfile.py no longer generate complexMerge / readInstComplexReportsError")
+    return mm.group(1), rr.group(1) == "true"
+
+
 def extract(repo):
     f = flags(repo)
+    mode, reports = _cx_shape_of_attrnull(repo)
+    mine = "all" if f["complexMergesParts"] else "nonDerivedAttrs" if f["complexMergesAttrErrors"] else "none"
+    if (mode, reports) != (mine, f["complexReportsError"]):
+        raise ValueError(f"complex-part plumbing: attrnull.py derives {(mode, reports)}, p21rw.py {(mine, f['complexReportsError'])}")
     lean = f"""-- GENERATED by tools/extract.d/p21rw.py from sdaiString.cc, STEPaggr*.cc, Str.cc, sdaiApplication_instance.cc, STEPcomplex.cc, STEPfile.cc, p21read.cc
 import StepModel.P21.Reader
 namespace StepModel.Generated
@@ -352,12 +448,18 @@ namespace StepModel.Generated
 /-- behaviour switches of the reader/writer above the literal level, as the source has them now -/
 def rwCfg : StepModel.P21.RWCfg :=
   {{ stringNodeAppends := {_b(f['stringNodeAppends'])},
-    aggrSkipsComments := {_b(f['aggrSkipsComments'])}, complexMergesParts := {_b(f['complexMergesParts'])},
-    complexMergesAttrErrors := {_b(f['complexMergesAttrErrors'])},
+    aggrSkipsComments := {_b(f['aggrSkipsComments'])},
+    -- the complex-part plumbing is C15's regenerated table (`AttrNull.codeShape`, tools/extract.d/attrnull.py); this
+    -- extractor derives the same facts from the source on its own and refuses to generate when the two disagree
+    complexMergesParts := decide (StepModel.AttrNull.codeShape.merge = .all),
+    complexMergesAttrErrors := decide (StepModel.AttrNull.codeShape.merge = .nonDerivedAttrs),
     complexPartStrict := {f['complexPartStrict']}, recoveryKeepsSemicolon := {_b(f['recoveryKeepsSemicolon'])},
-    complexReportsError := {_b(f['complexReportsError'])},
+    complexReportsError := StepModel.AttrNull.codeShape.reports,
     skipInstanceSkipsComments := {_b(f['skipInstanceSkipsComments'])},
     missingSemicolonReported := {_b(f['missingSemicolonReported'])},
+    recoveryStopsAtSemicolon := {_b(f['recoveryStopsAtSemicolon'])},
+    rawValueStaysInRecord := {_b(f['rawValueStaysInRecord'])},
+    missingCheckEverySecond := {_b(f['missingCheckEverySecond'])},
     fillerOnlyForDollar := {_b(f['fillerOnlyForDollar'])},
     fillerKeepsError := {_b(f['fillerKeepsError'])},
     errorResyncsFromStart := {_b(f['errorResyncsFromStart'])},
@@ -371,7 +473,10 @@ def rwLexCfg : StepModel.P21.LexCfg :=
     binaryRejectsEmpty := {_b(f['binaryRejectsEmpty'])}, dollarKeepsError := {_b(f['dollarKeepsError'])},
     asStrUsesWriteReal := false, criSkipsComments := {_b(f['criSkipsComments'])}, realBuf := {f['realBuf']},
     realPrecision := 15, nulIsDelim := {_b(f['nulIsDelim'])}, realFailUnlessBlank := {_b(f['realFailUnlessBlank'])},
-    refReportsNonRef := {_b(f['refReportsNonRef'])} }}
+    refReportsNonRef := {_b(f['refReportsNonRef'])},
+    intNullReported := {_b(f['intNullReported'])}, realNullReported := {_b(f['realNullReported'])},
+    numberNullReported := {_b(f['numberNullReported'])},
+    criStopsAtSemicolon := {_b(f['criStopsAtSemicolon'])} }}
 
 end StepModel.Generated
 """
